@@ -12,6 +12,8 @@
 (*   WriteTmp  take stateMu, write PD_STATE.json.tmp                                     *)
 (*   Rename    rename over PD_STATE.json, release the mutex(es)                          *)
 (*   Reply     the response leaves the server: the values are handed out                 *)
+(* A request in `fails` gets an error from the storage layer instead of WriteTmp/Rename  *)
+(* and is answered with an error (its reserved values are never handed out).             *)
 (* The process can crash at any point and restarts from the checkpoint file.             *)
 (*                                                                                       *)
 (* Deviation "CheckpointOutsideLock" (the tree before the fix: commit): the counters are *)
@@ -22,6 +24,7 @@ CONSTANTS Reqs,        \* request ids of the first incarnation, e.g. {1,2,3}
           IdReqs,      \* the AllocID requests among them (the others are Tso requests)
           Batch2,      \* the requests asking for 2 values (the others ask for 1)
           Deviations,  \* subset of {"CheckpointOutsideLock"}
+          FailChoices, \* set of sets of requests whose checkpoint write fails (storage fault), Init picks one
           MaxHist      \* 0 for model checking, > 0 for behaviour generation
 
 Kinds == {"ts", "id"}
@@ -39,6 +42,7 @@ variables
   stateMu = 0,                      \* LocalStore.stateMu holder (0 = free)
   allocMu = 0,                      \* Service persist mutex holder (repaired design)
   epoch   = 1,                      \* incarnation of the PD process
+  fails \in FailChoices,            \* the requests whose SaveAllocatorState returns an error
   out     = {},                     \* ghost: <<kind, value>> handed out so far
   bad     = {},                     \* ghost, sticky: which part of the property failed
   hist    = <<>>;                   \* behaviour generation: gate-level schedule
@@ -84,9 +88,15 @@ ReadTs:
   Log(self);                           \* gate: SaveAllocatorState entered
 WriteTmp:
   await epoch = 1 /\ stateMu = 0;
-  stateMu := self;
-  tmpf := seen;
-  Log(self);                           \* gate: before rename
+  if (self \in fails) {              \* the write fails: nothing reaches the disk, the request is answered with an error
+    if (Fixed) { allocMu := 0 };
+    Log(self);
+    goto Done;
+  } else {
+    stateMu := self;
+    tmpf := seen;
+    Log(self);                         \* gate: before rename
+  };
 Rename:
   await epoch = 1;
   ckpt := tmpf;
@@ -120,7 +130,7 @@ PostAlloc:
 }
 } *)
 \* BEGIN TRANSLATION
-VARIABLES pc, ctr, ckpt, tmpf, stateMu, allocMu, epoch, out, bad, hist
+VARIABLES pc, ctr, ckpt, tmpf, stateMu, allocMu, epoch, fails, out, bad, hist
 
 (* define statement *)
 MaxOut(k) == LET s == {x[2] : x \in {y \in out : y[1] = k}}
@@ -136,8 +146,8 @@ CheckpointCovers == \A x \in out : ckpt[x[1]] >= x[2]
 
 VARIABLES first, floor, seen
 
-vars == << pc, ctr, ckpt, tmpf, stateMu, allocMu, epoch, out, bad, hist, 
-           first, floor, seen >>
+vars == << pc, ctr, ckpt, tmpf, stateMu, allocMu, epoch, fails, out, bad, 
+           hist, first, floor, seen >>
 
 ProcSet == (Reqs) \cup {Sys} \cup (Post)
 
@@ -148,6 +158,7 @@ Init == (* Global variables *)
         /\ stateMu = 0
         /\ allocMu = 0
         /\ epoch = 1
+        /\ fails \in FailChoices
         /\ out = {}
         /\ bad = {}
         /\ hist = <<>>
@@ -165,8 +176,8 @@ Reserve(self) == /\ pc[self] = "Reserve"
                  /\ ctr' = [ctr EXCEPT ![KindOf[self]] = ctr[KindOf[self]] + BatchOf[self]]
                  /\ first' = [first EXCEPT ![self] = ctr'[KindOf[self]] - BatchOf[self] + 1]
                  /\ pc' = [pc EXCEPT ![self] = "LockA"]
-                 /\ UNCHANGED << ckpt, tmpf, stateMu, allocMu, epoch, out, bad, 
-                                 hist, seen >>
+                 /\ UNCHANGED << ckpt, tmpf, stateMu, allocMu, epoch, fails, 
+                                 out, bad, hist, seen >>
 
 LockA(self) == /\ pc[self] = "LockA"
                /\ epoch = 1
@@ -176,15 +187,15 @@ LockA(self) == /\ pc[self] = "LockA"
                      ELSE /\ TRUE
                           /\ UNCHANGED allocMu
                /\ pc' = [pc EXCEPT ![self] = "ReadId"]
-               /\ UNCHANGED << ctr, ckpt, tmpf, stateMu, epoch, out, bad, hist, 
-                               first, floor, seen >>
+               /\ UNCHANGED << ctr, ckpt, tmpf, stateMu, epoch, fails, out, 
+                               bad, hist, first, floor, seen >>
 
 ReadId(self) == /\ pc[self] = "ReadId"
                 /\ epoch = 1
                 /\ seen' = [seen EXCEPT ![self]["id"] = ctr["id"]]
                 /\ pc' = [pc EXCEPT ![self] = "ReadTs"]
-                /\ UNCHANGED << ctr, ckpt, tmpf, stateMu, allocMu, epoch, out, 
-                                bad, hist, first, floor >>
+                /\ UNCHANGED << ctr, ckpt, tmpf, stateMu, allocMu, epoch, 
+                                fails, out, bad, hist, first, floor >>
 
 ReadTs(self) == /\ pc[self] = "ReadTs"
                 /\ epoch = 1
@@ -194,19 +205,31 @@ ReadTs(self) == /\ pc[self] = "ReadTs"
                       ELSE /\ TRUE
                            /\ hist' = hist
                 /\ pc' = [pc EXCEPT ![self] = "WriteTmp"]
-                /\ UNCHANGED << ctr, ckpt, tmpf, stateMu, allocMu, epoch, out, 
-                                bad, first, floor >>
+                /\ UNCHANGED << ctr, ckpt, tmpf, stateMu, allocMu, epoch, 
+                                fails, out, bad, first, floor >>
 
 WriteTmp(self) == /\ pc[self] = "WriteTmp"
                   /\ epoch = 1 /\ stateMu = 0
-                  /\ stateMu' = self
-                  /\ tmpf' = seen[self]
-                  /\ IF Len(hist) < MaxHist
-                        THEN /\ hist' = Append(hist, self)
-                        ELSE /\ TRUE
-                             /\ hist' = hist
-                  /\ pc' = [pc EXCEPT ![self] = "Rename"]
-                  /\ UNCHANGED << ctr, ckpt, allocMu, epoch, out, bad, first, 
+                  /\ IF self \in fails
+                        THEN /\ IF Fixed
+                                   THEN /\ allocMu' = 0
+                                   ELSE /\ TRUE
+                                        /\ UNCHANGED allocMu
+                             /\ IF Len(hist) < MaxHist
+                                   THEN /\ hist' = Append(hist, self)
+                                   ELSE /\ TRUE
+                                        /\ hist' = hist
+                             /\ pc' = [pc EXCEPT ![self] = "Done"]
+                             /\ UNCHANGED << tmpf, stateMu >>
+                        ELSE /\ stateMu' = self
+                             /\ tmpf' = seen[self]
+                             /\ IF Len(hist) < MaxHist
+                                   THEN /\ hist' = Append(hist, self)
+                                   ELSE /\ TRUE
+                                        /\ hist' = hist
+                             /\ pc' = [pc EXCEPT ![self] = "Rename"]
+                             /\ UNCHANGED allocMu
+                  /\ UNCHANGED << ctr, ckpt, epoch, fails, out, bad, first, 
                                   floor, seen >>
 
 Rename(self) == /\ pc[self] = "Rename"
@@ -222,7 +245,8 @@ Rename(self) == /\ pc[self] = "Rename"
                       ELSE /\ TRUE
                            /\ hist' = hist
                 /\ pc' = [pc EXCEPT ![self] = "Reply"]
-                /\ UNCHANGED << ctr, tmpf, epoch, out, bad, first, floor, seen >>
+                /\ UNCHANGED << ctr, tmpf, epoch, fails, out, bad, first, 
+                                floor, seen >>
 
 Reply(self) == /\ pc[self] = "Reply"
                /\ epoch = 1
@@ -234,8 +258,8 @@ Reply(self) == /\ pc[self] = "Reply"
                      ELSE /\ TRUE
                           /\ hist' = hist
                /\ pc' = [pc EXCEPT ![self] = "Done"]
-               /\ UNCHANGED << ctr, ckpt, tmpf, stateMu, allocMu, epoch, first, 
-                               floor, seen >>
+               /\ UNCHANGED << ctr, ckpt, tmpf, stateMu, allocMu, epoch, fails, 
+                               first, floor, seen >>
 
 req(self) == Reserve(self) \/ LockA(self) \/ ReadId(self) \/ ReadTs(self)
                 \/ WriteTmp(self) \/ Rename(self) \/ Reply(self)
@@ -246,7 +270,7 @@ Crash == /\ pc[Sys] = "Crash"
          /\ allocMu' = 0
          /\ epoch' = 2
          /\ pc' = [pc EXCEPT ![Sys] = "Done"]
-         /\ UNCHANGED << ckpt, tmpf, out, bad, hist, first, floor, seen >>
+         /\ UNCHANGED << ckpt, tmpf, fails, out, bad, hist, first, floor, seen >>
 
 sys == Crash
 
@@ -258,8 +282,8 @@ PostAlloc(self) == /\ pc[self] = "PostAlloc"
                                   \cup (IF (ctr'[PKind[self]]) <= (MaxOut(PKind[self])) THEN {"not-increasing"} ELSE {}))
                    /\ out' = (out \cup Range((PKind[self]), (ctr'[PKind[self]]), 1))
                    /\ pc' = [pc EXCEPT ![self] = "Done"]
-                   /\ UNCHANGED << tmpf, stateMu, allocMu, epoch, hist, first, 
-                                   floor, seen >>
+                   /\ UNCHANGED << tmpf, stateMu, allocMu, epoch, fails, hist, 
+                                   first, floor, seen >>
 
 post(self) == PostAlloc(self)
 
@@ -287,7 +311,7 @@ Uncontrolled == {"LockA", "ReadId", "ReadTs"}
 GateGrain == \A r \in Reqs : pc[r] \in Uncontrolled => pc'[r] # pc[r]
 
 \* every behaviour is printed once the post-restart allocations are done
-EmitHist == (pc[102] = "Done") => PrintT(<<"SCHED", ToJson(hist)>>)
+EmitHist == (pc[102] = "Done") => PrintT(<<"SCHED", ToJson(hist)>>)   \* `fails` is fixed by the generation cfg
 
-View == <<ctr, ckpt, tmpf, stateMu, allocMu, epoch, out, bad, pc, first, floor, seen>>
+View == <<fails, ctr, ckpt, tmpf, stateMu, allocMu, epoch, out, bad, pc, first, floor, seen>>
 =============================================================================
